@@ -87,6 +87,9 @@ pub struct LinkCfg {
     pub bc_step: u16,
     /// every TDH carries the internal-trigger flag (otherwise only those mirroring an RDH with bit 4 clear... see render)
     pub internal: bool,
+    /// mixed trigger history: the first TDH of an HBF whose RDH trigger type carries the PhT bit is a physics
+    /// trigger (internal flag clear, mirrors the RDH), every other TDH is an internal one
+    pub physics_first_on_pht: bool,
 }
 
 pub const TRG_SOC_HB_TF: u32 = 0x6A03; // ORBIT|HB|TF|SOC|... as in the recorded data (SOT/SOC at run start)
@@ -110,6 +113,7 @@ impl LinkCfg {
             rdh_bcs: vec![0],
             bc_step: 0x100,
             internal: true,
+            physics_first_on_pht: false,
         }
     }
     pub fn ml(link_id: u8, stave: u8, upper: bool) -> Self {
@@ -243,7 +247,7 @@ impl LinkRenderer {
         Tdh {
             // the first trigger of the HBF mirrors the RDH (required on page 0 for internal / PhT triggers)
             trigger_type: if first_of_hbf || !self.cfg.internal { (self.trg() & 0xFFF) as u16 } else { 0 },
-            internal: self.cfg.internal,
+            internal: self.cfg.internal && !(self.cfg.physics_first_on_pht && first_of_hbf && self.trg() & 0x10 != 0),
             no_data,
             continuation: false,
             bc,
